@@ -216,6 +216,12 @@ def _eval_valid(c):
     require(not bad.any(), "kernel result differs from reference", kernel=c["kernel"], dtype=c["dtype"],
             row=int(np.argmax(bad)), got=r[bad][:3].tolist(), want=ref[bad][:3].tolist(),
             x=V[bad][:1].tolist(), y=v.tolist())
+    # a returned array belongs to the caller: a later call on other data of the same size may not change it
+    r_copy = r.copy()
+    other = fn(np.ascontiguousarray(V[::-1]), np.ascontiguousarray(v[::-1]))
+    require(other is not r and not np.shares_memory(other, r), "two calls returned the same / overlapping result buffer")
+    require(same_bits(r, r_copy), "the result of an earlier call was changed by a later call on other data",
+            before=r_copy.tolist()[:5], after=r.tolist()[:5])
     # metamorphic: identical bits with the plain presentation (C layout, 1 thread, no out)
     with threadpool_limits(limits=1, user_api="openmp"):
         base = fn(np.ascontiguousarray(V), np.ascontiguousarray(v))
@@ -371,9 +377,54 @@ def run_asan_invalid(case):
 invalid_batch = st.fixed_dictionaries({"items": st.lists(invalid_item(), min_size=12, max_size=30)})
 valid_batch = st.fixed_dictionaries({"items": st.lists(valid_case(max_n=24, max_d=7), min_size=10, max_size=25)})
 
+# ---------------------------------------------------------------------------
+# few, very wide rows (seeded): thousands of terms per row, every thread count
+
+@st.composite
+def wide_case(draw):
+    kernel = draw(st.sampled_from(list(KERNELS)))
+    return {"kernel": kernel, "dtype": draw(st.sampled_from(KERNELS[kernel])), "n": draw(st.integers(1, 15)),
+            "d": draw(st.sampled_from([1023, 1024, 1025, 2048, 4099, 9000])), "seed": draw(st.integers(0, 2 ** 31 - 1)),
+            "threads": draw(st.sampled_from([2, 3, 7, 16])), "xlayout": draw(st.sampled_from(["C", "F", "rowstride"]))}
+
+
+def run_wide(case):
+    fn = getattr(libdist, case["kernel"])
+    rng = np.random.RandomState(case["seed"])          # seed drawn by Hypothesis
+    n, d, dt = case["n"], case["d"], case["dtype"]
+    if dt.startswith("float"):
+        V = (rng.randn(n, d) * np.exp(rng.uniform(-6, 6, size=d))).astype(dt)
+    else:
+        hi = min(int(np.iinfo(dt).max), 1000)
+        V = rng.randint(max(int(np.iinfo(dt).min), -1000), hi + 1, size=(n, d)).astype(dt)
+    v = V[rng.randint(n)][::-1].copy()
+    X = lay_X(V, case["xlayout"])
+    with threadpool_limits(limits=1, user_api="openmp"):
+        base = fn(np.ascontiguousarray(V), v)
+    if dt.startswith("float"):
+        Xd, yd = V.astype(np.float64), v.astype(np.float64)
+        ref = {"euclidean": lambda: np.sqrt(((Xd - yd) ** 2).sum(axis=1)), "manhattan": lambda: np.abs(Xd - yd).sum(axis=1),
+               "hamming": lambda: (Xd != yd).mean(axis=1)}[case["kernel"]]()
+    else:
+        ref = reference(case["kernel"], V, v)
+    rtol = 1e-5 if dt == "float32" else 1e-12
+    require(base.dtype == np.float64 and base.shape == (n,), "result is not a 1-D float64 array of length n")
+    require(bool(np.all(np.abs(base - ref) <= rtol * np.maximum(np.abs(ref), np.abs(base)) + 1e-300)),
+            "kernel result differs from reference on very wide rows", kernel=case["kernel"], dtype=dt, d=d,
+            got=base[:3].tolist(), want=ref[:3].tolist())
+    for t in (case["threads"], 16, case["threads"]):
+        with threadpool_limits(limits=t, user_api="openmp"):
+            r = fn(X, v)
+        require(same_bits(np.ascontiguousarray(r), base), "result on very wide rows depends on the number of OpenMP threads / layout",
+                threads=t, got=r[:3].tolist(), plain=base[:3].tolist(), kernel=case["kernel"], dtype=dt, n=n, d=d)
+    return Info(d >= 1024, ["wide_kernel=" + case["kernel"], "wide_dtype=" + dt, "wide_d=%d" % d, "threads=%d" % case["threads"]],
+                key=[case["kernel"], dt, n, d, case["seed"], case["threads"], case["xlayout"]])
+
+
 CLAUSES = [
     Clause("values", valid_case(), run_values, quick=1600, thorough=24000),
     Clause("values_large", valid_case(max_n=400, max_d=33), run_values, quick=40, thorough=1600),
+    Clause("wide_rows", wide_case(), run_wide, quick=60, thorough=1200),
     Clause("invalid_raises", invalid_batch, run_invalid, quick=12, thorough=160),
 ]
 
